@@ -330,3 +330,131 @@ theorem dispatchOf_total (id : OptId) (h : isMainId id = true) : ∃ d, dispatch
   cases id <;> first | exact ⟨_, rfl⟩ | (simp [isMainId, specialIds] at h)
 
 end Pc.Cli
+
+namespace Pc.Cli
+open Pc.Calc
+
+/-- the main option a command line selects: the id of its (only) main item, OPTION_DEFAULT when there is none -/
+def selected (l : List Item) : OptId :=
+  match mainItems l with
+  | [] => .default
+  | it :: _ => it.id
+
+def InInt64 (v : Int) : Prop := -(2 : Int) ^ 63 ≤ v ∧ v < (2 : Int) ^ 63
+
+theorem cliToInt64_ok {v w : Int} (h : cliToInt64 v = .ok w) : w = v ∧ InInt64 v := by
+  unfold cliToInt64 at h
+  split at h
+  · rename_i hr; cases h; exact ⟨rfl, hr⟩
+  · cases h
+
+/-- what `parseOptions` returns, in terms of the items of the command line -/
+theorem parseOptions_ok {hw stod argv o} (h : parseOptions hw stod argv = .ok o) :
+    argv ≠ [] ∧
+    (mainItems (items argv)).length ≤ 1 ∧ o.option = selected (items argv) ∧ isMainId o.option = true ∧
+    (numberValues (items argv)).head? = some o.x ∧
+    (o.option = .phi → (numberValues (items argv))[1]? = some o.a) ∧
+    (∀ it ∈ items argv, it.id ≠ .help ∧ it.id ≠ .version ∧ it.id ≠ .test) := by
+  unfold parseOptions at h
+  split at h
+  · cases h
+  · rename_i hne
+    split at h
+    · cases h
+    · cases h
+    · rename_i s hs
+      obtain ⟨n1, n2, n3, _⟩ := parseLoopIn_ok optTable hw stod argv.length {} argv s hs
+      have hnum : s.numbers = numberValues (items argv) := by simpa [items] using n1
+      have hsel : (mainItems (items argv)).length ≤ 1 ∧ s.option = selected (items argv) ∧ isMainId s.option = true := by
+        rcases n3 rfl with ⟨c1, c2, _⟩ | ⟨it, c1, c2, _⟩
+        · have c1' : mainItems (items argv) = [] := c1
+          refine ⟨by simp [c1'], ?_, ?_⟩
+          · rw [c2]; simp [selected, c1']
+          · rw [c2]; decide
+        · have c1' : mainItems (items argv) = [it] := c1
+          refine ⟨by simp [c1'], ?_, ?_⟩
+          · rw [c2]; simp [selected, c1']
+          · rw [c2]
+            have : it ∈ mainItems (items argv) := by simp [c1']
+            simp only [mainItems, List.mem_filter] at this
+            exact this.2
+      split at h
+      · cases h
+      · rename_i o' hf
+        cases h
+        unfold finishParse at hf
+        split at hf
+        · cases hf
+        · rename_i hphi
+          split at hf
+          · cases hf
+          · rename_i x r hn
+            cases hf
+            refine ⟨by intro e; simp [e] at hne, hsel.1, hsel.2.1, hsel.2.2, ?_, ?_, n2⟩
+            · rw [← hnum, hn]; rfl
+            · intro hp
+              have hp' : s.option = .phi := hp
+              rw [← hnum, hn]
+              cases r with
+              | nil => simp [hp', hn] at hphi
+              | cons a r' => simp [hp']
+
+theorem mainCall_some {o call d} (h : mainCall o = .ok (some (call, d))) :
+    dispatchOf o.option = some d ∧
+    call = ⟨d.fn, o.x, if d.narrow && d.second then some o.a else none, d.threads⟩ ∧
+    (d.narrow = true → InInt64 o.x) ∧ (d.narrow = true → d.second = true → InInt64 o.a) := by
+  unfold mainCall at h
+  split at h
+  · cases h
+  · rename_i d' hd
+    split at h
+    · rename_i hn
+      split at h
+      · cases h
+      · rename_i x hx
+        obtain ⟨rfl, hxr⟩ := cliToInt64_ok hx
+        split at h
+        · rename_i hs
+          split at h
+          · cases h
+          · rename_i a ha
+            obtain ⟨rfl, har⟩ := cliToInt64_ok ha
+            cases h
+            exact ⟨hd, by simp [hn, hs], fun _ => hxr, fun _ _ => har⟩
+        · rename_i hs
+          cases h
+          exact ⟨hd, by simp [hn, hs], fun _ => hxr, fun _ h2 => absurd h2 hs⟩
+    · rename_i hn
+      cases h
+      exact ⟨hd, by simp [hn], fun h1 => absurd h1 hn, fun h1 => absurd h1 hn⟩
+
+theorem mainCall_none {o} (h : mainCall o = .ok none) : dispatchOf o.option = none := by
+  unfold mainCall at h
+  split at h
+  · rename_i hd; exact hd
+  · split at h
+    · split at h
+      · cases h
+      · split at h
+        · split at h <;> cases h
+        · cases h
+    · cases h
+
+theorem mem_printResult {σ : ApiState} {t : Bool} {res v : Int} (h : OutItem.result v ∈ printResult σ t res) : v = res := by
+  unfold printResult at h
+  simp only [List.mem_append] at h
+  rcases h with h | h
+  · split at h <;> simp at h
+  · split at h
+    · simp only [List.mem_append] at h
+      rcases h with (h | h) | h
+      · split at h <;> simp at h
+      · simpa using h
+      · split at h <;> simp at h
+    · simp at h
+
+/-- `to_int64(a)` is reached only by `--phi` -/
+theorem dispatchOf_second (id : OptId) : (dispatchOf id).map (·.second) = some true → id = .phi := by
+  cases id <;> decide
+
+end Pc.Cli
